@@ -67,8 +67,11 @@ type Workload struct {
 	// ExtraOwners (KOwnedPods): further, non-controller ownerReferences around the controller's: "before-false", "after-false",
 	// "before-omitted", "after-omitted", "both-false" (controller: false spelled out, or the field left out)
 	ExtraOwners string `json:"extraOwners,omitempty"`
-	HostIP      string `json:"hostIP,omitempty"`
-	PodIP       string `json:"podIP,omitempty"`
+	// ObjLabels: labels of the controller object itself (metadata.labels of the Deployment ..., and of a CronJob's jobTemplate): they are
+	// labels of the object, not of its pods, and must not matter
+	ObjLabels map[string]string `json:"objLabels,omitempty"`
+	HostIP    string            `json:"hostIP,omitempty"`
+	PodIP     string            `json:"podIP,omitempty"`
 }
 
 // PeerKind is the kind printed by the tool in the peer name.
@@ -132,6 +135,8 @@ type NetPol struct {
 	PolicyTypes []string `json:"policyTypes,omitempty"`
 	HasTypes    bool     `json:"hasTypes,omitempty"`
 	OmitNs      bool     `json:"omitNs,omitempty"` // manifest carries no metadata.namespace (only with Ns == "default")
+	// EmptySpelling: how a direction WITHOUT rules is written: "" = key omitted, "list" = `egress: []`, "null" = `egress: null`
+	EmptySpelling string `json:"emptySpelling,omitempty"`
 }
 
 // Governs says whether the policy's (defaulted) policyTypes include the direction.
